@@ -661,12 +661,21 @@ func (p *printer) stmt(s *S) {
 			p.indent()
 			p.w("}")
 		} else {
-			p.w("for " + k + ", " + v + " := range " + xs + " ")
+			if v == "" {
+				p.w("for " + k + " := range " + xs + " ")
+			} else {
+				p.w("for " + k + ", " + v + " := range " + xs + " ")
+			}
 			if p.goMode {
 				p.w("{")
 				p.nl()
 				p.ind++
-				if v != "_" {
+				if k != "_" {
+					p.indent()
+					p.w("_ = " + k)
+					p.nl()
+				}
+				if v != "_" && v != "" {
 					p.indent()
 					p.w("_ = " + v)
 					p.nl()
@@ -1287,7 +1296,11 @@ func (f *flat) stmt(s *S) int {
 	case "for":
 		return f.add(map[string]any{"k": "for", "init": f.opt(s.Init), "cond": f.optE(s.Cond), "post": f.opt(s.Post), "body": f.stmts(s.Body)})
 	case "range":
-		return f.add(map[string]any{"k": "range", "kname": s.KName, "vname": s.VName, "x": f.expr(s.X), "body": f.stmts(s.Body)})
+		vn := s.VName
+		if vn == "" {
+			vn = "_"
+		}
+		return f.add(map[string]any{"k": "range", "kname": s.KName, "vname": vn, "x": f.expr(s.X), "body": f.stmts(s.Body)})
 	case "switch":
 		cases := []map[string]any{}
 		for _, c := range s.Cases {
